@@ -4,6 +4,7 @@ import (
 	"fmt"
 	"math/big"
 
+	"github.com/zenon-network/go-zenon/chain"
 	g "github.com/zenon-network/go-zenon/chain/genesis/mock"
 	"github.com/zenon-network/go-zenon/chain/nom"
 	"github.com/zenon-network/go-zenon/common/types"
@@ -36,11 +37,16 @@ func init() {
 
 // ownBaseCost: the statement's base cost, computed without vm.GetBasePlasmaForAccountBlock
 func ownBaseCost(n *Node, b *nom.AccountBlock, ma types.HashHeight) (uint64, string) {
+	return ownBaseCostOn(n.Chain(), b, ma)
+}
+
+// ownBaseCostOn: the same on any chain (producer or follower)
+func ownBaseCostOn(ch chain.Chain, b *nom.AccountBlock, ma types.HashHeight) (uint64, string) {
 	if b.IsReceiveBlock() {
 		return constants.AccountBlockBasePlasma, "receive"
 	}
 	if types.IsEmbeddedAddress(b.ToAddress) {
-		st := n.Chain().GetMomentumStore(ma)
+		st := ch.GetMomentumStore(ma)
 		ctx := &regimeCtx{}
 		if st != nil {
 			ctx.acc, _ = st.IsSporkActive(types.AcceleratorSpork)
